@@ -822,16 +822,17 @@ def run(pid, tier, seed, replay=None):
             disagreements.append({'case': c, 'first': dis[0], 'n': len(dis)})
     # smallest first; the first few are re-run on a reduced script (prefix + the one branch) to get a short replay
     found.sort(key=lambda cv: (size_of(cv[0]), json.dumps(cv[1]['where'])))
-    reported = 0
+    reduced_keys = set()
     for c, v in found:
         payload_case = c
-        if reported < 3 and replay is None:
+        key = (v.get('clause'), v['op'][0])
+        if key not in reduced_keys and len(reduced_keys) < 4 and replay is None:
+            reduced_keys.add(key)
             rc = reduce_case(c, v['where'])
             ri, rm = evaluate(ck, [rc])
             _, r10, r11 = judge(rc, ri[0], rm[0])
             if any(x.get('clause') == v.get('clause') for x in mine(r10, r11)):
                 payload_case = rc
-        reported += 1
         ck.violation(f'{v.get("clause")} [operation {v["op"][0]} on class K{v.get("cls")}]', payload_case, stream='dataclass',
                      extra={'violation': {k: v[k] for k in v if k != 'model'}, 'model_observation': v.get('model')},
                      matcher=lambda f, case, _v=v, _c=payload_case: matcher_fn(f, {'case': _c, 'violation': _v}))
